@@ -1,11 +1,15 @@
 import slayer
-from props.scommon import scen, preempt_scenario
+from props.scommon import scen, preempt_scenario, overbook_parallel_roots_fail_scenario
 """C18 - overbook: one operator and one CPU per container, full-pool RAM, CPU-bound"""
 
 
 def run(ctx):
     n = 100 if ctx.quick() else 1000
-    slayer.run_scenarios_s(ctx, "C18", scen(ctx, ["overbook"], n, contended=True))
+    def scenarios():
+        yield from scen(ctx, ["overbook"], n, contended=True)
+        for i in range(max(8, n // 12)):
+            yield overbook_parallel_roots_fail_scenario(ctx.seed * 7919 + i)
+    slayer.run_scenarios_s(ctx, "C18", scenarios())
 
 
 def replay(ctx, rep):
